@@ -379,6 +379,17 @@ def gen_cases(ctx):
             mats[0]['entries'].append([0, 0, pair(Fr(1, 2 ** 60))])
             mats[0]['entries'].append([0, 1, pair(-big)])
         add({'kind': 'align', 'shape': [nr, nc], 'mats': mats, 'exact_stream': True})
+    # --- sparse alignment, data dtypes (int32 / int64 / float32 / float64 data, small integer
+    # values: exactly representable in every dtype); drawn last so that the streams above are unchanged
+    for _ in range(60 if thorough or ext else 8):
+        nr, nc = rng.randint(1, 4), rng.randint(1, 4)
+        mats = []
+        for _m in range(rng.randint(1, 3)):
+            ent = [[i, j, pair(Fr(rng.randint(-99, 99)))] for i in range(nr) for j in range(nc)
+                   if rng.random() < 0.5]
+            mats.append({'format': rng.choice(['csr', 'coo', 'csr_unsorted']), 'entries': ent,
+                         'data_dtype': rng.choice(['int32', 'int64', 'float32', 'float64'])})
+        add({'kind': 'align', 'shape': [nr, nc], 'mats': mats, 'dtype_stream': True})
     return cases
 
 
@@ -600,7 +611,7 @@ def inv_amplification(r, i):
 
 # ------------------------------------------------------- correspondence (Coq)
 HEADER = ('From Coq Require Import List ZArith QArith Bool.\nImport ListNotations.\n'
-          'From FV.C17 Require Import Model AlignEntry Corr.\nSet Printing Width 100000.\n')
+          'From FV.C17 Require Import Model AlignEntry AlignDtype Corr.\nSet Printing Width 100000.\n')
 
 
 def coq_items(c, r):
@@ -717,6 +728,13 @@ def coq_items(c, r):
             out.append(('e', f'chk_align_entry {spm_list(c)} (inl {outs2})'))
             if r['out']:
                 out.append(('i', f'chk_align_idem {outs2}'))
+            dn = {'int32': 'I32', 'int64': 'I64', 'float32': 'F32', 'float64': 'F64'}
+            if all(o.get('data_dtype') in dn for o in r['out']):
+                ins_d = lib.coq_list([dn[m.get('data_dtype', 'float64')] for m in c['mats']])
+                outs_d = lib.coq_list([dn[o['data_dtype']] for o in r['out']])
+                out.append(('d', f'chk_align_dtype {ins_d} {outs_d}'))
+            else:
+                out.append(('d', 'false'))
         else:
             out.append(('e', 'false'))
     return out
@@ -951,8 +969,6 @@ def main(ctx):
                             for m in c17_tensor.METHODS)
         ctx.notes['lte_rows_bound_by_id'] = dict(zip(c17_tensor.METHODS, LTE_BINDING))
         ctx.widened = True
-    # 1'. translator validation (constant evaluator against Python on synthetic modules)
-    validate_const_evaluator(ctx)
     # 1a. align_nnz: the key expression and the decisions the entry-level model relies on (T)
     align_T = True
     align_base = (lib.COQ / PID / 'gen_baseline' / 'AlignCfg.v.txt').read_text()
@@ -1041,7 +1057,8 @@ def main(ctx):
                 ctx.count('lte_l2g_only')
         if c['kind'] == 'align':
             ctx.count('align_n_matrices:%d' % len(c['mats']))
-            ctx.count('align_stream:' + ('bit-exact' if c.get('exact_stream') else
+            ctx.count('align_stream:' + ('data-dtypes' if c.get('dtype_stream') else
+                                         'bit-exact' if c.get('exact_stream') else
                                          'huge-shape' if c.get('huge_shape') else 'dyadic'))
         nontriv = any(x[0] != 0 for row in c.get('a', []) for x in row) or \
             any(m['entries'] for m in c.get('mats', []))
@@ -1097,6 +1114,9 @@ def main(ctx):
                           'correspondence C17 (Corr.chk_%s)' % c['kind'], found_input=False,
                           signature=dict(sig_of(c, 'correspondence')),
                           what='implementation result not reproduced by the model')
+    # 5'. translator validation (constant evaluator against Python on synthetic modules);
+    # placed after every other use of ctx.rng so that the case streams are what they were
+    validate_const_evaluator(ctx)
     # informational probe: (s + D) - D in binary64 (modelled as exact; see notes)
     try:
         probe = {'id': 0, 'kind': 'align', 'shape': [1, 2], 'mats': [{'format': 'csr', 'entries': [
